@@ -126,6 +126,9 @@ class HalfFile:
     def __exit__(self, *a):
         self.close()
 
+    def __getattr__(self, k):       # name, fileno, ... of the real file
+        return getattr(self._real, k)
+
 
 class RecFile:
     """pass-through proxy that remembers the bytes written (content id of the file)"""
